@@ -20,11 +20,12 @@ import vlib
 from vlib import ToolError, log
 
 TIERS = {
-    "quick": {"C05": dict(shards=16, positions=5, depth=3, validate=1, cap=30000, max_men=7, fixed=4, win_positions=400, win_depth=3),
+    "quick": {"C05": dict(shards=16, positions=5, depth=3, validate=1, cap=30000, max_men=7, fixed=4, win_positions=400, win_depth=3,
+                     bell_positions=25, bell_kpk=500, bell_depth=3),
               "C06": dict(shards=16, positions=2, depth=3, validate=0, cap=6000, max_men=6, kstep=1)},
-    "thorough": {"C05": dict(shards=16, positions=150, depth=3, validate=6, cap=60000, max_men=8, fixed=5, win_positions=4000, win_depth=4,
+    "thorough": {"C05": dict(shards=16, positions=150, depth=3, validate=6, cap=60000, max_men=8, fixed=5, win_positions=4000, win_depth=4, bell_positions=400, bell_kpk=6000, bell_depth=3,
                          steps=dict(cases=96, depth=3, heur_ops=20000)),
-                 "C06": dict(shards=16, positions=40, depth=3, validate=0, cap=12000, max_men=7, kstep=1,
+                 "C06": dict(shards=16, positions=40, depth=3, validate=0, cap=12000, max_men=7, kstep=1, aeq_positions=250, aeq_samples=200,
                              steps=dict(cases=96, depth=3, two=True))},
 }
 
@@ -107,6 +108,51 @@ def _windows(exe, work, args, tag, R):
     return matched, probes
 
 
+def _bellman(exe, work, args, tag, R):
+    """C05 on arbitrary positions: the minimax recursion V(p,d) = max -V(p.m,d-1) over separate fresh searches (BellmanTrace.tla)"""
+    tp = args[args.index("--out") + 1]
+    vlib.run_harness(exe, args, stdout_path=os.path.join(work, "bstdout_%s.txt" % tag), timeout=7200)
+    n = sum(1 for _ in open(tp))
+    if n == 0:
+        return 0, 0
+    kids = sum(len(json.loads(l).get("kids", [])) for l in open(tp))
+    matched, results, rej = vlib.validate_trace("BellmanTrace", "BellmanTrace.cfg", tp, lambda e: True, timeout=7200, max_rejections=4)
+    for r in results:
+        R.add_tlc(r)
+        for pr in r.prints:
+            if "SKIPPED-NOT-JUDGED" in pr:
+                R.coverage["minimax_recursion_events_not_judged"] = R.coverage.get("minimax_recursion_events_not_judged", 0) + int(pr.strip("<> ").split(",")[1])
+    for rj in rej:
+        names = rj["failed"] or [("C05", "no_action")]
+        e = rj["event"]
+        R.violation("C05:%s:%s:d%s" % (names[0][1], e.get("fen"), e.get("d")),
+                    "C05 [minimax recursion] position '%s' depth %s: a fresh engine reports %s with move %s, but the separate fresh searches of its "
+                    "successors at depth %s say otherwise; %s" % (e.get("fen"), e.get("d"), e.get("v"), e.get("move"), (e.get("d") or 1) - 1, rj["diag"][-500:]),
+                    {"kind": "bellman", "fen": e.get("fen"), "depth": e.get("d")})
+    return matched, kids
+
+
+def _aborteq(exe, work, args, tag, R):
+    """C06 on arbitrary positions: interrupted search, then a completed one on the same Searcher = what a fresh engine reports"""
+    tp = args[args.index("--out") + 1]
+    vlib.run_harness(exe, args, stdout_path=os.path.join(work, "aestdout_%s.txt" % tag), timeout=7200)
+    evs = [json.loads(l) for l in open(tp)]
+    if not evs:
+        return 0, 0
+    runs = sum(len(e.get("runs", [])) for e in evs)
+    matched, results, rej = vlib.validate_trace("BellmanTrace", "BellmanTrace.cfg", tp, lambda e: True, timeout=7200, max_rejections=4)
+    for r in results:
+        R.add_tlc(r)
+    for rj in rej:
+        names = rj["failed"] or [("C06", "no_action")]
+        e = rj["event"]
+        R.violation("C06:%s:%s:d%s" % (names[0][1], e.get("fen"), e.get("d")),
+                    "C06 [interrupted, then completed search vs fresh engine; sub-checks %s] position '%s' depth %s: fresh engine %s; %s" % (
+                        [n[1] for n in names], e.get("fen"), e.get("d"), e.get("fresh"), rj["diag"][-500:]),
+                    {"kind": "aborteq", "fen": e.get("fen"), "depth": e.get("d")})
+    return matched, runs
+
+
 def run(prop, tier, seed):
     T = TIERS[tier][prop]
     R = vlib.Result(prop, tier, seed)
@@ -149,6 +195,19 @@ def run(prop, tier, seed):
                     R.sample(e)
             R.coverage["alpha_beta_contract"] = {"positions_x_depths": wev, "window_probes": wpr,
                                                  "note": "positions of every game phase, no finite-quiescence restriction"}
+
+            def bshard(i):
+                out = os.path.join(work, "bell_%d.ndjson" % i)
+                return out, _bellman(exe, work, ["search-bellman", "--seed", seed * 433 + i, "--positions", T["bell_positions"], "--kpk", T["bell_kpk"],
+                                                 "--maxdepth", T["bell_depth"], "--out", out], str(i), R)
+            bev = bk = 0
+            for out, (m, k) in vlib.parallel(bshard, range(T["shards"])):
+                bev += m
+                bk += k
+            R.coverage["minimax_recursion"] = {"positions_x_depths": bev, "successor_searches": bk,
+                                               "note": "V(p,d) = max -V(p.m,d-1) over separate fresh full-window searches; game positions of every phase "
+                                                       "plus the family king + pawn on the seventh rank (+ one man) against king"}
+            log("[C05] minimax recursion: %d position/depth pairs, %d successor searches" % (bev, bk))
             log("[C05] alpha-beta contract: %d position/depth pairs, %d window probes" % (wev, wpr))
         # step-level binding of Search.tla to the code (SPEC-DRIFT detector, no verdict)
         ST = T.get("steps", {})
@@ -159,6 +218,18 @@ def run(prop, tier, seed):
             R.coverage["step_traces"] = steps.run(R, exe, work, seed, 1, ST.get("cases", 16), ST.get("depth", 2))
             if ST.get("two"):
                 R.coverage["step_traces_two_interruptions"] = steps.run(R, exe, work, seed + 1, 2, ST.get("cases", 16), ST.get("depth", 2), tag="steps2")
+        if prop == "C06":
+            def ashard(i):
+                out = os.path.join(work, "aeq_%d.ndjson" % i)
+                return _aborteq(exe, work, ["search-aborteq", "--seed", seed * 521 + i, "--positions", T.get("aeq_positions", 12), "--depth", 3,
+                                            "--samples", T.get("aeq_samples", 60), "--out", out], str(i), R)
+            aev = aruns = 0
+            for m, k in vlib.parallel(ashard, range(T["shards"])):
+                aev += m
+                aruns += k
+            R.coverage["interrupted_then_completed_vs_fresh"] = {"positions_x_depths": aev, "interrupted_runs": aruns,
+                                                                 "note": "game positions of every phase (no finite-quiescence restriction), depth 2-3, random poll budgets"}
+            log("[C06] arbitrary positions: %d position/depth pairs, %d interrupted-then-completed runs compared with a fresh engine" % (aev, aruns))
         R.coverage["traces_validated_against_impl"] = tot.get("positions", 0) + R.coverage.get("alpha_beta_contract", {}).get("positions_x_depths", 0)
         R.coverage["graph_audit"] = tot
         R.coverage["events_matched"] = events
@@ -184,6 +255,18 @@ def replay(prop, payload):
     try:
         fl = os.path.join(work, "fens.txt")
         open(fl, "w").write(payload["fen"] + "\n")
+        if payload.get("kind") == "aborteq":
+            out = os.path.join(work, "aeq.ndjson")
+            m, k = _aborteq(exe, work, ["search-aborteq", "--fens", fl, "--positions", 1, "--depth", 3, "--samples", 400, "--out", out], "r", R)
+            R.coverage["traces_validated_against_impl"] = m
+            R.sample(payload)
+            return R
+        if payload.get("kind") == "bellman":
+            out = os.path.join(work, "bell.ndjson")
+            m, k = _bellman(exe, work, ["search-bellman", "--fens", fl, "--maxdepth", max(1, int(payload["depth"])), "--out", out], "r", R)
+            R.coverage["traces_validated_against_impl"] = m
+            R.sample(payload)
+            return R
         if payload.get("kind") == "window":
             out = os.path.join(work, "win.ndjson")
             m, pr = _windows(exe, work, ["search-window", "--fens", fl, "--positions", 1, "--maxdepth", max(3, int(payload["depth"])), "--out", out], "r", R)
